@@ -272,7 +272,12 @@ func RunConcurrent(profile string, seed int64, dur time.Duration, workers int, o
 	case <-time.After(30 * time.Second):
 		res.Blocked = append(res.Blocked, "background goroutines did not return within 30 s")
 	}
-	w.settle()
+	// goroutines of the session that never came back are stuck inside the core: touching the core again (settle,
+	// projection) would hang this goroutine as well, so the session ends here with what is known
+	stuck := len(res.Blocked) > 0
+	if !stuck {
+		w.settle()
+	}
 	time.Sleep(20 * time.Millisecond)
 	res.Blocked = append(res.Blocked, blockedInCore()...)
 	res.Deadlock = locking.IsDeadlockDetected()
@@ -296,7 +301,12 @@ func RunConcurrent(profile string, seed int64, dur time.Duration, workers int, o
 		res.Panics = []string{}
 	}
 	final := M{"op": "final", "panic": strings.Join(res.Panics, " || "), "dpanic": 0, "hang": len(res.Blocked) > 0 || res.Deadlock, "msgs": []M{}, "pred": []M{},
-		"reloaded": reloaded.Load(), "settled": res.Settled, "blocked": res.Blocked, "state": w.Project()}
+		"reloaded": reloaded.Load(), "settled": res.Settled, "blocked": res.Blocked}
+	if stuck {
+		final["state"] = emptyState(w)
+	} else {
+		final["state"] = w.Project()
+	}
 	if err := enc.Encode(final); err != nil {
 		return nil, err
 	}
